@@ -57,6 +57,9 @@ class CheckFailed(Exception):
     pass
 
 
+_MISSING = object()
+
+
 @rt.native
 class Ctx:
     """Handed to every harness.  mode 'sym': inputs are symbolic, checks are solver obligations.
@@ -287,8 +290,16 @@ class Ctx:
         """Replace attribute `name` of module/class `owner` by `replacement` for the rest of this run: natively by
         patching the attribute, symbolically by an identity override of the original callable (instrumented
         functions run in a snapshot of their module's globals, so patching alone would not reach them)."""
-        orig = owner.__dict__[name] if name in getattr(owner, "__dict__", {}) else getattr(owner, name)
-        self._stubs.append((owner, name, orig))
+        import builtins
+        missing = False
+        if name in getattr(owner, "__dict__", {}):
+            orig = owner.__dict__[name]
+        elif hasattr(owner, name):
+            orig = getattr(owner, name)
+        else:
+            orig = getattr(builtins, name)          # a builtin the module refers to as a global name (e.g. open)
+            missing = True
+        self._stubs.append((owner, name, _MISSING if missing else orig))
         if self.mode == 'sym':
             target = orig.__func__ if isinstance(orig, (classmethod, staticmethod)) else orig
             rt.OVERRIDES[id(target)] = replacement
@@ -310,7 +321,10 @@ class Ctx:
         for owner, name, orig in reversed(self._stubs):
             if self.mode != 'sym':
                 try:
-                    setattr(owner, name, orig)
+                    if orig is _MISSING:
+                        delattr(owner, name)
+                    else:
+                        setattr(owner, name, orig)
                 except (AttributeError, TypeError):
                     pass
         for k in self._overrides:
